@@ -44,7 +44,7 @@ def configs(tier, seed):
     ref_shapes = [(1, 1, 3, 3), (1, 2, 1, 4), (2, 1, 2, 2), (1, 1, 1, 1)] + ([(2, 2, 2, 2), (1, 1, 3, 4), (2, 1, 3, 2)] if tier == "thorough" else [])
     for shp in ref_shapes:
         for P in (3, 5):
-            for thr in ([0.2, -0.5] if shp == (1, 1, 3, 3) or tier == "thorough" else [0.2]):
+            for thr in ([0.2, -0.5, 0.0] if shp == (1, 1, 3, 3) or tier == "thorough" else [0.2]):
                 out.append(dict(shape=list(shp), thr=thr, refinement="integral", patch=P))
     for shp, P in ([((1, 1, 3, 3), 4), ((1, 2, 1, 4), 2)] + ([((2, 1, 2, 2), 4), ((1, 1, 3, 3), 6)] if tier == "thorough" else [])):  # even patch sizes
         out.append(dict(shape=list(shp), thr=0.2, refinement="integral", patch=P))
@@ -110,13 +110,14 @@ def run_config(cfg):
             cms = T.sym_float_tensor("c", (S, C, H, W))
             rough = pf.find_local_peaks_rough(cms, threshold=thr)
             res = pf.find_local_peaks(cms, threshold=thr, refinement=cfg["refinement"], integral_patch_size=P) if cfg["refinement"] else None
-        return cms, rough, res
+            plain = pf.find_local_peaks(cms, threshold=thr, refinement=None) if not cfg["refinement"] else None  # the public entry point without refinement
+        return cms, rough, res, plain
 
     def extract(model, env):
         return {"cms": [float(env[f"c_{i}"]) for i in range(S * C * H * W)], "shape": [S, C, H, W]}
 
     tag = f"thr{thr}"
-    for cms, rough, res in ex.run(path):
+    for cms, rough, res, plain in ex.run(path):
         rep.paths += 1
         rep.nontrivial_paths += 1
         cv = cms.values()
@@ -158,6 +159,17 @@ def run_config(cfg):
             m = ex.full_model()
             from symx.explorer import model_env, DefaultEnv
             rep.violation("O4-row-major-order", "O4-order", f"peaks not in (sample,y,x,channel) order: {got}", extract(m, DefaultEnv(model_env(m))))
+        if plain is not None:
+            # O5': find_local_peaks without refinement is the rough detector with the SAME threshold: same peaks, order, indices (structure compared on the path)
+            ppts, pvals_, psi, pci = plain
+            same_p = (tuple(ppts.shape) == tuple(pts.shape) and psi.materialize().tolist() == s_l and pci.materialize().tolist() == c_l
+                      and (ppts.materialize().tolist() if isinstance(ppts, T.SymTensor) else ppts.tolist()) == P_l)
+            rep.record("O5p-entry-point-without-refinement-equals-the-rough-detector", "unsat" if same_p else "sat")
+            if not same_p:
+                m = ex.full_model()
+                from symx.explorer import model_env, DefaultEnv
+                rep.violation("O5p-entry-point-without-refinement-equals-the-rough-detector", "O5-count-order", "find_local_peaks(refinement=None) returns other peaks than find_local_peaks_rough with the same threshold",
+                              extract(m, DefaultEnv(model_env(m))))
         if res is not None:
             rpts, rvals, rsi, rci = res
             same = (tuple(rpts.shape) == tuple(pts.shape) and rsi.materialize().tolist() == s_l and rci.materialize().tolist() == c_l)
@@ -278,6 +290,11 @@ def replay(cfg, inputs, obligation):
                 return True, f"value {v} != map[{s},{c},{y},{x}]={a[s, c, y, x]}"
         return False, "values match"
     P = cfg["patch"]
+    if obligation.startswith("O5p"):
+        qp, qv, qs, qc = pf.find_local_peaks(cms.clone(), threshold=thr, refinement=None)
+        if tuple(qp.shape) != tuple(pts.shape) or qs.tolist() != si.tolist() or qc.tolist() != ci.tolist() or not torch.equal(qp, pts):
+            return True, f"find_local_peaks(refinement=None, threshold={thr}) gives {qp.tolist()}, find_local_peaks_rough gives {pts.tolist()}"
+        return False, "entry point without refinement equals the rough detector"
     rp, rv, rs, rc = pf.find_local_peaks(cms.clone(), threshold=thr, refinement="integral", integral_patch_size=P)
     if obligation.startswith("O5"):
         if tuple(rp.shape) != tuple(pts.shape) or rs.tolist() != si.tolist() or rc.tolist() != ci.tolist() or not torch.equal(rv, vals):
